@@ -177,7 +177,13 @@ def isolated(fn, items, ends):
     results = [None] * len(items)
     pos = 0
     ends = sorted(set(ends) | {len(items)})
+    ncrash = 0
     while pos < len(items):
+        if ncrash >= 25:
+            # the library keeps dying / hanging: the verdict is settled, do not spend hours confirming it
+            for i in range(pos, len(items)):
+                results[i] = {"_crashed": "not run (25 earlier items crashed or hung)"}
+            break
         end = min(e for e in ends if e > pos)
         r, w = os.pipe()
         sys.stdout.flush()
@@ -200,7 +206,7 @@ def isolated(fn, items, ends):
         buf = []
         timed_out = False
         while True:
-            rd, _, _ = select.select([r], [], [], 300)
+            rd, _, _ = select.select([r], [], [], 120)
             if not rd:
                 timed_out = True
                 os.kill(pid, signal.SIGKILL)
@@ -231,6 +237,7 @@ def isolated(fn, items, ends):
         if started is not None:            # the child died inside this item
             sig = os.WTERMSIG(status) if os.WIFSIGNALED(status) else 0
             results[started] = {"_crashed": "timeout" if timed_out else "signal %d" % sig}
+            ncrash += 1
             pos = started + 1
         elif last < pos:
             raise RuntimeError("worker child produced nothing: status %r" % status)
